@@ -18,7 +18,7 @@ class C06(Prop):
     quick_n = 500
     thorough_n = 100000
     rule = ("interest streams: cash of either sign (optionally with a margined position held, so that margin exists), "
-            "reference rate in [-0.05, 0.24], markup in {0, .005, .01, .03}, interval from 1 s to 40 years cut into "
+            "reference rate in [-0.05, 0.24], markup in {0, .005, .01, .03}, (a tenth of the cases: a net rate of 1e-9 .. 9e-8 on balances up to 1e12 over years), interval from 1 s to 40 years cut into "
             "0-6 sub-intervals by accruing calls, query-only calls, repeated calls at the same instant, calls at an "
             "earlier time, and rebalances that trade nothing; each case is also run with the single direct accrual "
             "(split invariance). Cash balances include exactly 0; in 12% of the cases the balance is driven to exactly 0 "
@@ -43,13 +43,22 @@ class C06(Prop):
             markup = Fraction(0)
         length = rng.choice([SEC, 3600 * SEC, 86400 * SEC, 30 * 86400 * SEC, YEAR_US, 10 * YEAR_US, 40 * YEAR_US,
                              rng.randint(1, 10**7) * SEC])
+        tiny = rng.random() < 0.1
+        if tiny:
+            # a net rate that is tiny but not zero (1e-9 .. 9e-8 a year): on a large balance over years it is real money
+            k = Fraction(rng.randint(1, 90), 10**9)
+            base = Fraction(rng.choice(["0", "0", "0.01", "0.03"]))
+            cash = rng.choice(["1000000000000", "250000000", "-1000000000", cash])
+            markup = base
+            rate = F(float((base if Fraction(cash) > 0 else -base) + k * rng.choice([1, 1, -1])))
+            length = rng.choice([YEAR_US, 10 * YEAR_US, 30 * YEAR_US])
         ncut = rng.choice([0, 1, 1, 2, 3, 6])
         pts = sorted(rng.randint(0, length // SEC) * SEC for _ in range(ncut))
         cuts = []
         for p in pts:
             kind = rng.choice(["accrue", "accrue", "query", "same", "earlier", "rebal"])
             cuts.append([kind, p])
-        return dict(cash=cash, rate=fr(rate), markup=fr(markup), length=length, cuts=cuts,
+        return dict(tiny_net_rate=tiny, cash=cash, rate=fr(rate), markup=fr(markup), length=length, cuts=cuts,
                     margin_held=rng.random() < 0.3, zero_trip=rng.random() < 0.12,
                     tz_mode=rng.choice([None, None, None, None, "utc", "mixed", "mixed"]))
 
